@@ -93,7 +93,7 @@ func cmdCheck(args []string) int {
 			}
 		}
 	}
-	timeout := 10
+	timeout := 15
 	if *tier == "thorough" {
 		timeout = 60
 	}
@@ -192,6 +192,26 @@ func cmdCheck(args []string) int {
 	var solverTime float64
 	byBackend := map[string]int{}
 	nCover := 0
+	// antecedent covers are judged per clause, not per site: a clause is vacuous only if its
+	// antecedent can hold at none of the sites it is attached to
+	anteGroup := func(n string) string {
+		if i := strings.LastIndex(n, "#"); i >= 0 && strings.Contains(n, ".cover.ante") {
+			return n[:i]
+		}
+		return ""
+	}
+	anteOK := map[string]bool{}
+	for _, o := range obls {
+		if g := anteGroup(o.Name); g != "" && o.Verdict == "cover-ok" {
+			anteOK[g] = true
+		}
+	}
+	for _, o := range obls {
+		if g := anteGroup(o.Name); g != "" && o.Verdict == "cover-failed" && anteOK[g] {
+			o.Verdict = "cover-ok"
+			o.Output = "antecedent cannot hold at this site; it can at another site of the same clause"
+		}
+	}
 	for _, o := range obls {
 		seen[o.Name] = true
 		solverTime += o.TimeS
